@@ -466,7 +466,7 @@ pub fn property() -> Property {
         id: "C09",
         run,
         budget: |t| match t {
-            Tier::Quick => 6000,
+            Tier::Quick => 12000,
             Tier::Thorough => 500_000,
         },
         wall_cap_s: |t| match t {
